@@ -3,7 +3,6 @@ package main
 // SMT-LIB generation and the solver portfolio.
 
 import (
-	"sync"
 	"bytes"
 	"context"
 	"fmt"
@@ -13,6 +12,7 @@ import (
 	"regexp"
 	"sort"
 	"strings"
+	"sync"
 	"time"
 )
 
@@ -160,8 +160,8 @@ var symRe = regexp.MustCompile(`\|[^|]*\|`)
 // buildQuery assembles the SMT-LIB text of one obligation, pruning declarations to the symbols that occur.
 func (V *Verifier) buildQuery(o *Oblig, sums map[string]*SumFn, negate bool, level int) string {
 	ground := level >= 10 && level < 20 // level 1x: lemma level x on the ground part of the assumptions
-	focusMode := level >= 20              // level 2x: lemma level x, unfoldings and lemma instances only for the sums of the goal
-	udiv := level >= 30                   // level 3x: as 2x with quotients by symbolic divisors left uninterpreted (only their sign facts are kept)
+	focusMode := level >= 20            // level 2x: lemma level x, unfoldings and lemma instances only for the sums of the goal
+	udiv := level >= 30                 // level 3x: as 2x with quotients by symbolic divisors left uninterpreted (only their sign facts are kept)
 	level = level % 10
 	var body strings.Builder
 	for _, p := range o.PC {
@@ -638,8 +638,10 @@ func hasBoundArg(args []string) bool {
 
 // sumRelationLemmas instantiates two facts about finite sums (trusted base T-Sigma, ordinary mathematics) for every
 // pair of ground applications F(a, n1), F(b, n2) of the same sum function occurring in the query, at n in {n1, n2}:
-//   CONG(n):  (forall i in [lo,n): body(a,i) = body(b,i))  =>  F(a,n) = F(b,n)
-//   UPD(n,k): lo <= k < n and (forall i in [lo,n), i != k: body(a,i) = body(b,i))  =>  F(a,n) = F(b,n) + body(a,k) - body(b,k)
+//
+//	CONG(n):  (forall i in [lo,n): body(a,i) = body(b,i))  =>  F(a,n) = F(b,n)
+//	UPD(n,k): lo <= k < n and (forall i in [lo,n), i != k: body(a,i) = body(b,i))  =>  F(a,n) = F(b,n) + body(a,k) - body(b,k)
+//
 // for the candidate positions k derived from the indices of array stores occurring in the arguments. The inner
 // universal is in an antecedent, so each instance is quantifier-free after skolemisation.
 func sumRelationLemmas(text string, sums map[string]*SumFn, level int, focus string) []string {
@@ -1152,7 +1154,6 @@ func distributivityInstances(text string) []string {
 	return out
 }
 
-
 // isIntTerm: the term has sort Int according to the declarations in the query text (positions of a sum range over Int).
 func isIntTerm(t, text string) bool {
 	e, err := parseSx(t)
@@ -1190,7 +1191,6 @@ func declaredSort(name, text string) (string, bool) {
 	so, ok := declCache.m[name]
 	return so, ok
 }
-
 
 // divSignInstances: for every ground quotient (div A B) occurring in the query with a symbolic divisor, the valid fact
 // A >= 0 and B > 0 ==> 0 <= (div A B) <= A (the solvers' non-linear engines do not always find the sign in time).
